@@ -4,6 +4,7 @@ package c15
 import (
 	"fmt"
 	"strings"
+	"sync"
 	"time"
 
 	"github.com/cedar-policy/cedar-go/types"
@@ -453,6 +454,78 @@ func clauseGuards() *core.Family {
 	}
 }
 
+// ---------------------------------------------------------------------------
+// Totality view (used by C16): the same policy space, index-addressable, plus set literals
+// of three elements over operands of every type including entity-type unions and record
+// unions (ill-typed sets make the validator sort and render the element types). C16 only
+// asks that validation returns.
+
+var totalOnce sync.Once
+var totalUn, totalBin []gen.OpSpec
+var totalLeaves, totalSetElems []*Expr
+
+func totalInit() {
+	totalOnce.Do(func() {
+		setup()
+		for _, sp := range specs() {
+			switch sp.Arity {
+			case 1:
+				totalUn = append(totalUn, sp)
+			case 2:
+				totalBin = append(totalBin, sp)
+			}
+		}
+		totalLeaves = leaves()
+		ok := path("context", "ok")
+		u, g, d := L(Entity("User", "u2")), L(Entity("Group", "g1")), L(Entity("Doc", "d1"))
+		totalSetElems = []*Expr{u, g, d, If(ok, u, g), If(ok, g, u), If(ok, u, u), If(ok, If(ok, u, g), d), If(ok, d, If(ok, g, u)), L(Long(1)), L(Str("s")),
+			RecLit([]string{"a"}, []*Expr{g}), If(ok, RecLit([]string{"a"}, []*Expr{g}), RecLit([]string{"a"}, []*Expr{u})), Var("principal"), Var("resource"), path("context", "who"), SetLit(g), SetLit(If(ok, g, u))}
+	})
+}
+
+// TotalityValidators returns the strict and the permissive validator of the C15 schema (nil, nil, err if it does not resolve).
+func TotalityValidators() (*validate.Validator, *validate.Validator, error) {
+	totalInit()
+	return vStrict, vPerm, setupErr
+}
+
+// TotalityN is the number of policies of the totality view.
+func TotalityN() int64 {
+	totalInit()
+	nl := int64(len(totalLeaves))
+	ne := int64(len(totalSetElems))
+	return int64(len(totalUn))*nl + int64(len(totalBin))*32*32 + 3*ne*ne*ne
+}
+
+// TotalityPolicy returns policy i of the totality view and a description.
+func TotalityPolicy(i int64) (string, *xast.Policy) {
+	totalInit()
+	nl := int64(len(totalLeaves))
+	ne := int64(len(totalSetElems))
+	var e *Expr
+	switch {
+	case i < int64(len(totalUn))*nl:
+		e = totalUn[i/nl].Build([]*Expr{totalLeaves[i%nl]})
+	case i < int64(len(totalUn))*nl+int64(len(totalBin))*1024:
+		j := i - int64(len(totalUn))*nl
+		e = totalBin[j/1024].Build([]*Expr{totalLeaves[j%1024/32], totalLeaves[j%32]})
+	default:
+		j := i - int64(len(totalUn))*nl - int64(len(totalBin))*1024
+		form := j / (ne * ne * ne)
+		j %= ne * ne * ne
+		set := SetLit(totalSetElems[j/(ne*ne)], totalSetElems[j/ne%ne], totalSetElems[j%ne])
+		switch form {
+		case 0:
+			e = Bin(OContains, set, Var("principal"))
+		case 1:
+			e = Bin(OEq, set, SetLit(L(Long(1))))
+		default:
+			e = Bin(OIn, Var("principal"), set)
+		}
+	}
+	return e.String(), scopes[int(i)%len(scopes)].mk().When(e.ToAST())
+}
+
 func pow(b, e int) int64 {
 	r := int64(1)
 	for i := 0; i < e; i++ {
@@ -492,7 +565,7 @@ func depth1(name string, sp []gen.OpSpec, lv []*Expr, arity int) *core.Family {
 }
 
 // guard patterns (depth <= 3): the capability mechanism.
-func guards() *core.Family {
+func guards(tier string) *core.Family {
 	type target struct {
 		base *Expr
 		attr string
@@ -536,10 +609,13 @@ func guards() *core.Family {
 		{"unguarded", func(h, u, o *Expr) *Expr { return u }},
 	}
 	others := []*Expr{path("context", "ok"), Has(Var("principal"), "flag")}
+	if tier != "thorough" {
+		others = others[:1] // the second side condition only in the thorough tier
+	}
 	n := len(targets) * len(targets) * len(uses) * len(forms) * len(others)
 	return &core.Family{
 		Name: "has-guards",
-		Desc: fmt.Sprintf("%d guard forms (has && use, use && has, !has || use, if-then-else, nested and negated guards, unguarded) x %d guarded paths x %d used paths (same or different) x %d uses x 2 side conditions: capabilities must cover exactly the guarded attribute", len(forms), len(targets), len(targets), len(uses)),
+		Desc: fmt.Sprintf("%d guard forms (has && use, use && has, !has || use, if-then-else, nested and negated guards, unguarded) x %d guarded paths x %d used paths (same or different) x %d uses x %d side condition(s): capabilities must cover exactly the guarded attribute", len(forms), len(targets), len(targets), len(uses), len(others)),
 		N:    int64(n),
 		Run: func(t *core.T, i int64) {
 			x := int(i)
@@ -617,6 +693,62 @@ func unions() *core.Family {
 	}
 }
 
+// action-in folding: `action in <set or entity>` is typed True / False from the schema's
+// action hierarchy when its right side names concrete actions, and the branch behind a
+// False (or True) guard is then not checked. The guard must really have that value at run
+// time: sets mixing literals with non-literal elements must not be folded from the literals.
+func actionInGuards() *core.Family {
+	act := func(id string) *Expr { return L(Entity("Action", id)) }
+	ok := path("context", "ok")
+	elems := []*Expr{act("view"), act("edit"), act("admin"), act("readWrite"), If(ok, act("view"), act("edit")), If(ok, act("edit"), act("admin")), Var("action")}
+	var rhs []*Expr
+	for _, a := range elems {
+		rhs = append(rhs, a, SetLit(a))
+		for _, b := range elems {
+			rhs = append(rhs, SetLit(a, b))
+			for _, c := range elems {
+				rhs = append(rhs, SetLit(a, b, c))
+			}
+		}
+	}
+	uses := []*Expr{
+		Bin(OEq, path("principal", "nick"), L(Str("s"))),   // optional attribute, unguarded
+		Bin(OEq, path("principal", "missing"), L(Long(1))), // no such attribute
+		Bin(OLt, path("principal", "name"), L(Long(1))),    // type error
+		Bin(OEq, Bin(OGetTag, Var("principal"), L(Str("k"))), L(Long(1))),
+	}
+	type form struct {
+		name string
+		f    func(a, u *Expr) *Expr
+	}
+	forms := []form{
+		{"A&&U", func(a, u *Expr) *Expr { return Bin(OAnd, a, u) }},
+		{"!A||U", func(a, u *Expr) *Expr { return Bin(OOr, Un(ONot, a), u) }},
+		{"A||U", func(a, u *Expr) *Expr { return Bin(OOr, a, u) }},
+		{"!A&&U", func(a, u *Expr) *Expr { return Bin(OAnd, Un(ONot, a), u) }},
+		{"if-A-U-true", func(a, u *Expr) *Expr { return If(a, u, L(Bool(true))) }},
+		{"if-A-true-U", func(a, u *Expr) *Expr { return If(a, L(Bool(true)), u) }},
+	}
+	n := len(rhs) * len(uses) * len(forms)
+	return &core.Family{
+		Name: "action-in-guards",
+		Desc: fmt.Sprintf("`action in R` as a guard in %d short-circuit forms in front of %d unsafe uses, for %d right sides R (an action, or a set of 1..3 elements over 4 action literals incl. an action group, 2 if-then-else expressions over action literals and the variable `action`)", len(forms), len(uses), len(rhs)),
+		N:    int64(n),
+		Run: func(t *core.T, i int64) {
+			x := int(i)
+			f := forms[x%len(forms)]
+			x /= len(forms)
+			u := uses[x%len(uses)]
+			r := rhs[x/len(uses)]
+			e := f.f(Bin(OIn, Var("action"), r), u)
+			if checkCond(t, "action-in:"+f.name, e, []bool{true}) {
+				t.Nontrivial()
+			}
+			t.SampleF(e.String)
+		},
+	}
+}
+
 // tag guards
 func tagGuards() *core.Family {
 	ents := []*Expr{Var("principal"), Var("resource"), path("resource", "owner"), path("principal", "manager"), L(Entity("User", "u2"))}
@@ -685,7 +817,7 @@ func Check() *core.Check {
 				return []*core.Family{{Name: "setup", Desc: "schema resolves", N: 1, Run: func(t *core.T, i int64) { t.Fail("harness-schema", schemaText, "resolves", e.Error()) }}}
 			}
 			sp := specs()
-			fams := []*core.Family{guards(), clauseGuards(), tagGuards(), unions(), depth1("depth1-unary", sp, leaves(), 1)}
+			fams := []*core.Family{guards(tier), clauseGuards(), tagGuards(), unions(), actionInGuards(), depth1("depth1-unary", sp, leaves(), 1)}
 			if tier == "thorough" {
 				fams = append(fams, depth1("depth1-binary", sp, leaves(), 2), depth1("depth1-if", gen.Ternary, leavesSmall(), 3))
 			} else {
